@@ -75,6 +75,17 @@ def const_term(c):
 def _val(c, ty):
     if "bytes_hex" in c:
         return T("const", "bytes", c["bytes_hex"])
+    if "agg" in c and c["agg"].get("fields"):
+        # destructured aggregate constant (table of tuples / enum values / byte strings)
+        a = c["agg"]
+        ops = tuple(_val(f, f.get("ty")) for f in a["fields"])
+        if a.get("variant"):
+            kind = ("adt", a.get("adt"), a["variant"], tuple(str(i) for i in range(len(ops))))
+        elif str(c.get("ty") or ty or "").startswith("["):
+            kind = ("array",)
+        else:
+            kind = ("tuple",)
+        return T("agg", kind, ops)
     if "fn" in c:
         ct = c["fn"].get("ctor")
         if ct:
@@ -494,6 +505,25 @@ class Eval:
                 if lab is not None and lab != keep_label:
                     self.dead.add((b, tgt, lab))
             return
+        if d is not None and d.op == "discr":
+            # discriminant of a value that is a known constructor application under the current assumptions
+            av = d.a[0]
+            while av.op in ("ref", "deref"):
+                av = av.a[0]
+            if av.op == "agg" and av.a[0][0] == "adt":
+                adt_name, var = av.a[0][1], av.a[0][2]
+                val = {"Option": {"None": 0, "Some": 1}, "Result": {"Ok": 0, "Err": 1}}.get(adt_name, {}).get(var)
+                if val is None and adt_name in self.prog.adts:
+                    for v in self.prog.adts[adt_name]["variants"]:
+                        if v["name"] == var:
+                            val = v.get("discr", v["index"])
+                if val is not None:
+                    arms = {v: tg for v, tg in t["arms"]}
+                    keep_label = ("sw", b, val) if val in arms else ("sw", b, "otherwise")
+                    for tgt, lab in self.fn.cfg.succ[b]:
+                        if lab is not None and lab != keep_label:
+                            self.dead.add((b, tgt, lab))
+                    return
         if d is None or d.op != "discr":
             return
         root = place_root(d.a[0])
